@@ -1,10 +1,14 @@
 package pools
 
 import (
+	"bytes"
 	"context"
 	"encoding/json"
 	"fmt"
 	"net"
+	"net/http"
+	"net/http/httptest"
+	"strings"
 	"sync"
 	"time"
 
@@ -644,7 +648,11 @@ func PPPoEFactory(cidr, gateway string, class string) Factory {
 
 // ---------------------------------------------------------------- pool.PeerPool (single node: every subscriber is local)
 
-type peerPool struct{ p *pool.PeerPool }
+type peerPool struct {
+	p    *pool.PeerPool
+	once sync.Once
+	m    *http.ServeMux
+}
 
 func (p *peerPool) Alloc(sub string) (string, error) {
 	r, err := p.p.Allocate(bg, sub, MacOf(sub))
@@ -680,7 +688,7 @@ func PeerFactory(cidr, gateway string, class string) Factory {
 			if err != nil {
 				panic(fmt.Sprintf("constructor: %v", err))
 			}
-			return &peerPool{p}
+			return &peerPool{p: p}
 		},
 	}
 }
@@ -690,4 +698,105 @@ func PeerFactory(cidr, gateway string, class string) Factory {
 func EpochConfigOK(cidr string, grace uint64) bool {
 	_, err := allocator.NewEpochBitmapAllocator(allocator.EpochBitmapConfig{BaseNetwork: cidr, PrefixLength: 32, GracePeriod: grace})
 	return err == nil
+}
+
+// ---------------------------------------------------------------- secondary entry points and state snapshots (C01)
+
+// AllocAlt: the DHCP path of the distributed allocator (AllocateWithMAC).
+func (d *distPool) AllocAlt(sub string) (string, error) {
+	p, err := d.a.AllocateWithMAC(bg, sub, MacOf(sub))
+	d.st.Flush(d.echo)
+	return cidrStr(p), err
+}
+
+// ReleaseAlt: the distributed allocator has one release entry point.
+func (d *distPool) ReleaseAlt(sub string) error { return d.Release(sub) }
+
+// Store exposes the harness store (parking of writes, see MemStore.Park).
+func (d *distPool) Store() *MemStore { return d.st }
+
+// AllocAlt: LocalAllocator.Allocate (no MAC), the other method of the Allocator interface.
+func (l *localPool) AllocAlt(sub string) (string, error) {
+	p, err := l.a.Allocate(bg, sub, localPoolID)
+	return cidrStr(p), err
+}
+func (l *localPool) ReleaseAlt(sub string) error { return l.Release(sub) }
+
+// AllocAlt: AllocateWithOptions with DUID and IAID, exactly what the DHCPv6 server calls.
+func (p *poolAllocPool) AllocAlt(sub string) (string, error) {
+	_, n := SubNum(sub)
+	ip, err := p.p.AllocateWithOptions(bg, allocator.AllocateOptions{SubscriberID: sub, DUID: DUIDOf(sub), IAID: uint32(n + 1)})
+	return cidrStr(ip), err
+}
+func (p *poolAllocPool) ReleaseAlt(sub string) error { return p.Release(sub) }
+
+// AllocStore exposes the fault-injecting / parking store wrapper (nil unless the factory was built with faulty=true).
+func (p *poolAllocPool) AllocStore() *FailingAllocStore { return p.st }
+
+func (d *dhcp4Pool) Key(sub string) string { return MacOf(sub).String() }
+func (d *dhcp4Pool) Snapshot() Snapshot {
+	st := d.p.VerifState()
+	return Snapshot{Allocated: st.Allocated, Available: st.Available, Quarantine: st.Unavailable}
+}
+
+// Decline is DHCPv6 Decline as handleDecline does it: the address is taken out of the pool, then everything the
+// client holds is released (a no-op for the address, which is no longer allocated).
+func (v *v6AddrPool) Decline(sub string) {
+	v.p.Decline(DUIDOf(sub))
+	v.p.Release(DUIDOf(sub))
+}
+func (v *v6AddrPool) Key(sub string) string { return DUIDOf(sub) }
+func (v *v6AddrPool) Snapshot() Snapshot {
+	a, f := v.p.VerifState()
+	return Snapshot{Allocated: a, Available: f}
+}
+func (v *v6PrefixPool) Key(sub string) string { return DUIDOf(sub) }
+func (v *v6PrefixPool) Snapshot() Snapshot {
+	a, f := v.p.VerifState()
+	return Snapshot{Allocated: a, Available: f}
+}
+
+func (p *pppoePool) Key(sub string) string { return sub }
+func (p *pppoePool) Snapshot() Snapshot {
+	a, f := p.p.VerifState()
+	return Snapshot{Allocated: a, Available: f}
+}
+
+func (p *peerPool) Key(sub string) string { return sub }
+func (p *peerPool) Snapshot() Snapshot {
+	a, r, f := p.p.VerifLocalState()
+	return Snapshot{Allocated: a, Available: f, Reverse: r}
+}
+
+func (p *peerPool) mux() *http.ServeMux {
+	p.once.Do(func() {
+		p.m = http.NewServeMux()
+		p.p.RegisterHandlers(p.m)
+	})
+	return p.m
+}
+
+// AllocAlt is the request a peer node forwards: POST /pool/allocate on this node's peer API.
+func (p *peerPool) AllocAlt(sub string) (string, error) {
+	body, _ := json.Marshal(pool.AllocationRequest{SubscriberID: sub, MAC: MacOf(sub).String()})
+	rec := httptest.NewRecorder()
+	p.mux().ServeHTTP(rec, httptest.NewRequest(http.MethodPost, "/pool/allocate", bytes.NewReader(body)))
+	if rec.Code != http.StatusOK {
+		return "", fmt.Errorf("peer API: status %d: %s", rec.Code, strings.TrimSpace(rec.Body.String()))
+	}
+	var resp pool.AllocationResponse
+	if err := json.Unmarshal(rec.Body.Bytes(), &resp); err != nil {
+		return "", fmt.Errorf("peer API: undecodable reply: %v", err)
+	}
+	return resp.IP, nil
+}
+
+// ReleaseAlt is DELETE /pool/release/{subscriber} on this node's peer API.
+func (p *peerPool) ReleaseAlt(sub string) error {
+	rec := httptest.NewRecorder()
+	p.mux().ServeHTTP(rec, httptest.NewRequest(http.MethodDelete, "/pool/release/"+sub, nil))
+	if rec.Code != http.StatusOK && rec.Code != http.StatusNoContent {
+		return fmt.Errorf("peer API: status %d", rec.Code)
+	}
+	return nil
 }
